@@ -794,6 +794,19 @@ theorem notify_old_branch_of_hok (rank : TxId → Nat) (E : HEnv) (w : HW) (H : 
     (c0 old : List Block) (hch : w.sp.chain = c0 ++ old) (hlen : old.length = n) : BranchOK E c0 old :=
   branch_of_run hd w rfl rfl H hbest hD c0 old hch hlen
 
+/-- … and both branches from the whole run of the notification: `BranchOK` of the disconnected, `NewOK` (parents on the
+    chain, `E.src`) of the connected one -/
+theorem notify_branches_of_hok (rank : TxId → Nat) (E : HEnv) (w : HW) (H : HInvC rank E w)
+    (hbest : w.v.best.height + 1 = w.sp.chain.length) (sm s' : Store) (n : Nat) (bs : List Block)
+    (hd : DReachFrom (E.ctx w.node) w.v.best.height w.s sm n)
+    (hc : CReachL (E.ctx w.node) (readyWallets sm E.wallets) sm s' bs)
+    (c0 old : List Block) (hch : w.sp.chain = c0 ++ old) (hlen : old.length = n)
+    (hD : ∀ x ∈ worldsH E w (notifyEvs n bs), HOK rank E x.1 x.2) :
+    BranchOK E c0 old ∧ NewOK E c0 bs := trace_branches w H hbest hd hc c0 old hch hlen hD
+
+/-- the G-B1-B2 → G-B1-B2x notification (hypotheses: the example after `notify_refines`) -/
+example : BranchOK exE [exG, exB1] [exB2] ∧ NewOK exE [exG, exB1] [exB2x] := exBranches
+
 /-- `NotifyDom.disc` (`DiscAll`: distinct ids, consistency, the three per-block clauses) IS A THEOREM of `HInv` and that -/
 theorem notify_disc_derived (rank : TxId → Nat) (E : HEnv) (w : HW) (H : HInv rank E w) (c0 old : List Block)
     (hch : w.sp.chain = c0 ++ old) (B : BranchOK E c0 old) : DiscAll E.env c0 old w.sp.pend :=
@@ -824,7 +837,8 @@ theorem notify_refines_derived (rank : TxId → Nat) (E : HEnv) (w : HW) (H : HI
 
 /-- non-vacuity: the G-B1-B2 → G-B1-B2x notification meets `NotifyRes`; `NotifyDom` and the conclusion are derived -/
 example : NotifyRes [exB2] [exB2x] (exV.sp.pend ++ backOf exE.env [exB2]) := exNotifyResV
-example : NotifyDom exE.env [exG, exB1] [exB2] [exB2x] exV.sp.pend := exRefinesRes.1
+example : NotifyDom exE.env [exG, exB1] [exB2] [exB2x] exV.sp.pend :=
+  notify_dom_derived exRankH exE exV exHInvCV.inv [exG, exB1] [exB2] [exB2x] exChainV exBranches.1 exBranches.2 exNotifyResV
 
 /-- NECESSITY of `cbfork`: the same-coinbase move (replayed on the code, Round 6c) meets `fork` and `nodbl`, violates
     `cbfork`, and one move ≠ the composition there -/
